@@ -117,7 +117,11 @@ func textRuns(tw *trace.Writer, rng *rand.Rand, n int, exh bool, st map[string]i
 				if paste {
 					full = append(append([]byte("\x1b[200~"), b...), []byte("\x1b[201~")...)
 				}
+				focus2 := focus && rng.Intn(2) == 0 // the terminal reports the same focus change twice in a row
 				if focus {
+					full = append(full, []byte("\x1b[I")...)
+				}
+				if focus2 {
 					full = append(full, []byte("\x1b[I")...)
 				}
 				strs++
@@ -148,7 +152,7 @@ func textRuns(tw *trace.Writer, rng *rand.Rand, n int, exh bool, st map[string]i
 				for _, cuts := range cutsets {
 					r := decode(ti, cs, 80, 24, split(full, cuts), nil)
 					e := runEvent("Text", strs, full, cuts, r)
-					e["src"], e["paste"], e["focus"] = trace.Runes(src), paste, focus
+					e["src"], e["paste"], e["focus"], e["focus2"] = trace.Runes(src), paste, focus, focus2
 					tw.Emit(e)
 					runs++
 				}
